@@ -22,6 +22,8 @@
 EXTENDS Naturals, Sequences, FiniteSets, TLC, Json
 
 CONSTANTS MaxArgs,
+          UrlTyped,    \* TRUE: the bracketed arguments are declared with type url -- while one is read # ~ % & are ordinary characters
+          RestoreOnAbsent,  \* TRUE: the category codes are put back also when the optional argument turns out to be absent (as built)
           BraceAware   \* TRUE: readGrouping treats a brace group inside [..] as opaque (repaired);
                        \* FALSE: it compares every token with the closer regardless of braces (as built, F17)
 
@@ -51,7 +53,7 @@ Frags(k) ==
                       [t |-> <<o, "\\vcs", "a", c>>, v |-> <<"\\vcs", "a">>]}
 
 (* ... including control symbols that are NAMED like an opening delimiter: they are not delimiters *)
-Followers == {<<>>, <<"x">>, <<"[", "x", "]">>, <<"*">>, <<" ", "x">>, <<"\\relax", "x">>, <<"(", "x">>, <<"{", "x", "}">>,
+Followers == {<<>>, <<"x">>, <<"~", "x">>, <<"[", "x", "]">>, <<"*">>, <<" ", "x">>, <<"\\relax", "x">>, <<"(", "x">>, <<"{", "x", "}">>,
               <<"\\[", "x">>, <<"\\(", "x">>}
 
 RECURSIVE Sigs(_)
@@ -86,8 +88,9 @@ Typed == {[ty |-> "str", t |-> <<"{", " ", "a", " ", "b", " ", "}">>, v |-> "a b
 VARIABLES sig, frags, follower,   \* the generated call (rule layer data)
           inp,                    \* remaining tokens
           bound,                  \* values bound so far
-          i                       \* index of the next argument
-vars == <<sig, frags, follower, inp, bound, i>>
+          i,                      \* index of the next argument
+          cat                     \* category codes in force: "normal" or "url" (# ~ % & ordinary)
+vars == <<sig, frags, follower, inp, bound, i, cat>>
 
 RECURSIVE Cat(_)
 Cat(fs) == IF fs = <<>> THEN <<>> ELSE Head(fs).t \o Cat(Tail(fs))
@@ -110,7 +113,7 @@ Init == /\ sig \in Sigs(MaxArgs) /\ sig # <<>>
         /\ follower \in Followers
         /\ Conforming(sig, frags, follower)
         /\ inp = Cat(frags) \o follower
-        /\ bound = <<>> /\ i = 1
+        /\ bound = <<>> /\ i = 1 /\ cat = "normal"
 
 (* ---- readers (machine layer) ---- *)
 SkipBlanks(s) == IF s # <<>> /\ s[1] = " " THEN Tail(s) ELSE s          \* the tokenizer has collapsed runs of blanks
@@ -155,6 +158,8 @@ ReadArgument ==
     /\ LET r == ReadOne(sig[i], inp) IN
          /\ r.ok
          /\ bound' = Append(bound, r.v) /\ inp' = r.rest
+         (* readArgumentAndSource sets the codes of the type before reading and puts the prior ones back afterwards *)
+         /\ cat' = IF UrlTyped /\ sig[i] \in {"opt", "paren", "angle"} /\ r.v = Absent /\ ~RestoreOnAbsent THEN "url" ELSE cat
     /\ i' = i + 1
     /\ UNCHANGED <<sig, frags, follower>>
 
@@ -168,8 +173,10 @@ BindsDeclared == Done => \A j \in 1..Len(sig) : bound[j] = frags[j].v
 (* what follows is untouched; a blank directly after the invocation may be absorbed while looking for a
    trailing optional argument (as LaTeX's own \@ifnextchar does) *)
 ConsumesExactly == Done => (inp = follower \/ (follower # <<>> /\ follower[1] = " " /\ inp = Tail(follower)))
+(* the category codes an argument type changes never outlive the argument *)
+CatcodesRestored == cat = "normal"
 NeverStuck == ~Done => ReadOne(sig[i], inp).ok
 EmitTyped == PrintT(<<"TYPED", ToJson(Typed)>>)
 Emit == Done => PrintT(<<"BEH", ToJson([sig |-> sig, call |-> Cat(frags), follower |-> follower, want |-> [j \in 1..Len(sig) |-> frags[j].v],
-                                        bound |-> bound, rest |-> inp])>>)
+                                        bound |-> bound, rest |-> inp, cat |-> cat])>>)
 =============================================================================
